@@ -108,7 +108,8 @@ Inductive ores := ORes (r : res val) | OBudget | OErr.
 Inductive out :=
 | OObs (results : list (list ores)) (final : val) (wl : list (nat * val * val))
        (sched : list (nat * lab * bool))
-| OFail (code : N).     (* 1 deadlock, 2 hang/timeout, 3 unmapped line, 4 diverged, 9 other *)
+| OFail (code : N).     (* 1 deadlock, 2 hang/timeout, 3 unmapped line, 4 diverged,
+                           5 the constructor rejected the initial value (no atom), 9 other *)
 
 Definition res_veqb := @res_eqb val val_eqb.
 
@@ -148,7 +149,12 @@ Definition thread_results (th : thread val fn) : list ores :=
   map (fun d : op val fn * res val * nat => ORes (snd (fst d))) (rev (t_done th))
   ++ match t_ops th with [] => [] | _ => [OBudget] end.
 
+(** Atom.__init__: [if validator is not None: self._validate(state)] -- an initial value the
+    validator rejects raises "Invalid reference state": no atom exists, nothing is scheduled. *)
+Definition ctor_rejects (c : case) : bool := negb (valid (c_vld c) (c_init c)).
+
 Definition model (c : case) : out :=
+  if ctor_rejects c then OFail 5 else
   match run_case c with
   | None => OFail 9
   | Some s =>
@@ -191,6 +197,8 @@ Fixpoint zip_all (ps : list (list (op val fn))) (rs : list (list ores))
 Definition res_vals (r : res val) : list val := match r with RVals l => l | _ => [] end.
 
 Definition spec_ok (c : case) (o : out) : bool :=
+  (* an initial value the validator rejects is never observable: construction must fail *)
+  if ctor_rejects c then match o with OFail code => N.eqb code 5 | OObs _ _ _ _ => false end else
   match o with
   | OFail _ => false
   | OObs results final wl _ =>
@@ -199,14 +207,13 @@ Definition spec_ok (c : case) (o : out) : bool :=
       | Some progs =>
           let vld := valid (c_vld c) in
           let n := length (concat progs) in
-          (* a rejected value is never observable *)
-          (negb (vld (c_init c))
-           || (vld final
-               && forallb (fun w : nat * val * val => vld (snd w) && vld (snd (fst w))) wl
-               && forallb (fun p : op val fn * res val =>
-                             match fst p with
-                             | OCas _ _ => true
-                             | _ => forallb vld (res_vals (snd p)) end) (concat progs)))
+          (* a rejected value is never observable (the initial value is valid here) *)
+          (vld final
+           && forallb (fun w : nat * val * val => vld (snd w) && vld (snd (fst w))) wl
+           && forallb (fun p : op val fn * res val =>
+                         match fst p with
+                         | OCas _ _ => true
+                         | _ => forallb vld (res_vals (snd p)) end) (concat progs))
           (* linearizable, and every watch saw exactly the transitions *)
           && match c_nwatch c with
              | O => lin_search same_value apply vld val_eqb (S n) false (c_init c) final progs []
